@@ -29,10 +29,27 @@ Inductive kind :=
 | KBitset (n : N) | KVecBool
 | KMap.                                   (* std::map<std::string,int> *)
 
+(** [o_ftab] = TypedArgBase::mFormats: slot 0 holds the general formats
+    (addFormat), slot i + 1 the formats of value position i (addFormatPos) *)
 Record copts := {
   o_sep : N; o_clear : bool; o_sort : bool; o_uniq : bool; o_dup_err : bool; o_multi : bool;
-  o_checks : list check; o_fmts : list fmt; o_card : card
+  o_checks : list check; o_ftab : list (list fmt); o_card : card
 }.
+
+(** the general formats: format( val) = format( val, -1) applies slot 0 (an
+    empty table has no slot 0: nothing is applied) *)
+Definition o_fmts (o : copts) : list fmt := nth 0 (o_ftab o) [].
+
+(** TypedArgBase::format( val, idx) for idx >= 0: the slot idx + 1 is used only
+    if [-1 <= idx && idx + 1 < mFormats.size()] *)
+Definition fmt_pos (o : copts) (idx : nat) (s : str) : str :=
+  if Nat.ltb (idx + 1) (length (o_ftab o)) then apply_fmts (nth (idx + 1) (o_ftab o) []) s else s.
+
+(** TypedArgBase::internAddFormat( val_idx, f) on the table: grow to
+    val_idx + 10 slots when val_idx is outside, then append to the slot *)
+Definition intern_add_format (tab : list (list fmt)) (i : nat) (f : fmt) : list (list fmt) :=
+  let tab' := if Nat.leb (length tab) i then tab ++ repeat [] (i + 10 - length tab) else tab in
+  firstn i tab' ++ (nth i tab' [] ++ [f]) :: skipn (S i) tab'.
 
 Inductive cont :=
 | CInts (l : list Z)
@@ -60,9 +77,46 @@ Definition clearable (k : kind) : bool :=
 
 Definition is_nil {A} (l : list A) : bool := match l with [] => true | _ => false end.
 
+(** who accepts addFormat(): everybody but the tuple *)
+Definition gen_fmt_allowed (k : kind) : bool := match k with KTuple => false | _ => true end.
+
+(** who accepts addFormatPos( idx) for idx >= 0: std::vector (the only adapter
+    with AllowsPositionFormat), the arrays and the tuple for their positions;
+    everybody else inherits TypedArgBase::addFormatPos, which refuses *)
+Definition pos_fmt_allowed (k : kind) (idx : nat) : bool :=
+  match k with
+  | KVec | KVecStr => true
+  | KArr n | KStdArr n => Nat.ltb idx n
+  | KTuple => Nat.ltb idx 3
+  | _ => false
+  end.
+
+(** a format table that the setters of kind [k] can have produced *)
+Definition ftab_ok (k : kind) (tab : list (list fmt)) : bool :=
+  (is_nil (nth 0 tab []) || gen_fmt_allowed k)
+  && forallb (fun i => is_nil (nth (S i) tab []) || pos_fmt_allowed k i) (seq 0 (length tab - 1)).
+
+(** addFormat( f) *)
+Definition add_format (k : kind) (tab : list (list fmt)) (f : fmt) : res (list (list fmt)) :=
+  if gen_fmt_allowed k then Ok (intern_add_format tab 0 f) else Err ELogic.
+
+(** addFormatPos( idx, f); idx = -1 is "all values" = the general slot
+    (refused by the tuple); idx < -1 indexes mFormats in front of its start *)
+Definition add_format_pos (k : kind) (tab : list (list fmt)) (idx : Z) (f : fmt) : res (list (list fmt)) :=
+  if Z.ltb idx (-1) then Fault OOBWrite else
+  match k with
+  | KVec | KVecStr => Ok (intern_add_format tab (Z.to_nat (idx + 1)) f)
+  | KArr n | KStdArr n =>
+      if Z.leb (Z.of_nat n) idx then Err ERange else Ok (intern_add_format tab (Z.to_nat (idx + 1)) f)
+  | KTuple =>
+      if Z.eqb idx (-1) then Err ELogic
+      else if Z.leb 3 idx then Err ERange else Ok (intern_add_format tab (Z.to_nat (idx + 1)) f)
+  | _ => Err ELogic
+  end.
+
 Definition setup_ok (k : kind) (o : copts) : bool :=
   implb (o_sort o) (sortable k) && implb (o_uniq o) (has_iter k) && implb (o_clear o) (clearable k)
-  && implb (negb (is_nil (o_fmts o))) (match k with KTuple => false | _ => true end)
+  && ftab_ok k (o_ftab o)
   && implb (match k with KMap => true | _ => false end) (negb (ceq (o_sep o) COMMA)).
 
 Definition default_sep (k : kind) : N := match k with KMap => 59%N | _ => COMMA end.
@@ -143,15 +197,21 @@ Definition split2 (sep : N) (s : str) : str * str :=
 (** * One list element: the body of the loop of assign() after the
       cardinality step *)
 
+(** std::vector only (AllowsPositionFormat): format( list_val, mDestVar.size())
+    after the general formats - the position is the current size of the
+    destination, so initial content and dropped duplicates shift it *)
+Definition pos_fmt_ints (k : kind) (o : copts) (l : list Z) (s : str) : str :=
+  match k with KVec => fmt_pos o (length l) s | _ => s end.
+
 Definition step_ints (k : kind) (o : copts) (t : str) (l : list Z) : res (list Z) :=
   do _ <- run_checks (o_checks o) t;
-  do v <- lex_int (apply_fmts (o_fmts o) t);
+  do v <- lex_int (pos_fmt_ints k o l (apply_fmts (o_fmts o) t));
   if o_uniq o && z_in v l then (if o_dup_err o then Err ERuntime else Ok l)
   else Ok (place k v l).
 
 Definition step_strs (o : copts) (t : str) (l : list str) : res (list str) :=
   do _ <- run_checks (o_checks o) t;
-  let v := apply_fmts (o_fmts o) t in
+  let v := fmt_pos o (length l) (apply_fmts (o_fmts o) t) in
   if o_uniq o && str_in v l then (if o_dup_err o then Err ERuntime else Ok l)
   else Ok (l ++ [v]).
 
@@ -167,18 +227,20 @@ Definition step_arr (contains : Z -> list Z -> nat -> bool) (n : nat) (o : copts
     (l : list Z) (idx : nat) : res cont :=
   if Nat.eqb idx n then Err ERuntime else
   do _ <- run_checks (o_checks o) t;
-  do v <- lex_int (apply_fmts (o_fmts o) t);
+  do v <- lex_int (fmt_pos o idx (apply_fmts (o_fmts o) t));     (* format( val); format( val, mIndex) *)
   if o_uniq o && contains v l idx then (if o_dup_err o then Err ERuntime else Ok (CArr l idx))
   else Ok (CArr (arr_set l idx v) (S idx)).
 
-(** common::tuple_at_index throws out_of_range beyond the last element; only
-    position formats exist for tuples (none in the configuration language) *)
+(** only the position format of the element that is filled next
+    (format( list_val, mNumValuesSet)); common::tuple_at_index throws
+    out_of_range beyond the last element *)
 Definition step_tuple (o : copts) (t : str) (a : Z) (s : str) (b : Z) (n : nat) : res cont :=
   do _ <- run_checks (o_checks o) t;
+  let t' := fmt_pos o n t in
   match n with
-  | 0 => do v <- lex_int t; Ok (CTuple v s b 1)
-  | 1 => Ok (CTuple a t b 2)
-  | 2 => do v <- lex_int t; Ok (CTuple a s v 3)
+  | 0 => do v <- lex_int t'; Ok (CTuple v s b 1)
+  | 1 => Ok (CTuple a t' b 2)
+  | 2 => do v <- lex_int t'; Ok (CTuple a s v 3)
   | _ => Err EOutOfRange
   end.
 
@@ -207,8 +269,9 @@ Definition step_vb (store : N -> list N -> N -> cont) (o : copts) (t : str) (siz
   else Ok (store size l p).
 
 (** pair separator "," (the default, no setPairFormat in the configuration
-    language); general formats are never applied to pairs (format( key, 0)
-    selects position formats) *)
+    language); general formats are never applied to pairs (format( key, 0) /
+    format( value, 1) select the slots of addFormatKey / addFormatValue, which
+    are not in the configuration language; addFormatPos is refused) *)
 Definition step_map (o : copts) (t : str) (l : list (str * Z)) : res cont :=
   do _ <- run_checks (o_checks o) t;
   let '(k, v) := split2 COMMA t in
